@@ -44,7 +44,7 @@ class GroupedList(list):
                     val
                     for iter_key, values in iterable.items()
                     for val in values
-                    if key != iter_key
+                    if not is_equal(key, iter_key)
                 ]
                 if key not in all_values:
                     # checking that key is missing from its values
